@@ -4,8 +4,48 @@ import engine_tab2 as tab2
 import engine_err as err
 import engine_pur as pur
 import engine_cli as cli
+import engine_flw as flw
+import engine_flw2 as flw2
 
 PROPS = {
+    "C14": {
+        "rules": [("FLW-4", flw2.flw4)],
+        "explanation": "Decides the write-effect clauses of C14 on MIR: Segment::apply_seg_mods cannot reach a syllable by type; in Syllable::apply_syll_mods every write "
+                       "of stress (tone) is reachable only on a Some edge of mods.stress[i] (mods.tone) and nothing else is written; in apply_supras every insertion/"
+                       "removal of segment copies is reachable only on a Some edge of mods.length[i]; Syllable::apply_seg_mods only maps the segment-level function "
+                       "and delegates; elsewhere in the interpreter stress/tone are written only to a syllable under construction (copied from the syllable being "
+                       "split) or while merging with a neighbour that is removed on every normal path; syllable-boundary deletion arms merge by `append` only.",
+        "does_not_decide": "that boundary insertion / deletion / metathesis keep segment order (value reasoning about pop_back -> push_front loops and indices); the documented stress 'steal' on initial insertion.",
+        "assumptions": [],
+    },
+    "C06": {
+        "rules": [("FLW-1", flw.flw1)],
+        "explanation": "Decides the no-write-without-match clause of C06: the four matchers take the word as &Word and Word/Syllable/Segment are Freeze with no "
+                       "unaudited unsafe in their call tree, so a failed or partial match cannot have altered it; in SubRule::apply the word is replaced only by "
+                       "the result of transform, whose call is reachable only on the non-empty edge of the input match and the true edge of "
+                       "match_contexts_and_exceptions (MIR dominance + reachability avoiding the guard); in the insertion loop `insert` is reachable only after "
+                       "insertion_match -> Some and insertion_match_exceptions -> false; blank and comment-only lines parse to no rule.",
+        "does_not_decide": "that a rule whose input needs an absent segment is judged non-matching (matcher correctness over all rule shapes; the pinned tree has known deviations there, e.g. inputs ending in a bare `$`).",
+        "assumptions": ["borrow checker: a function holding only &Word of a Freeze type cannot mutate it"],
+    },
+    "C15": {
+        "rules": [("FLW-2", flw.flw2)],
+        "explanation": "Decides the noninterference clause of C15 exactly as an information-flow statement: Transformation vectors are coloured by the AliasKind constant "
+                       "used to parse them; deromanisers reach only Word::new (word parsing), romanisers (or the empty list) only Word::render, at every call site, "
+                       "through every intermediate parameter; no function reachable from rule application mentions Transformation; render takes &self.",
+        "does_not_decide": "that a deromaniser `s > X` builds the same segment as typed X, and that the printed form is the default rendering rewritten by the table (value-level).",
+        "assumptions": [],
+    },
+    "C16": {
+        "rules": [("FLW-3", flw.flw3)],
+        "explanation": "Decides the sibling-agreement and provenance clauses of C16: apply_rules_trace enumerates groups and, per word, the group's rules front to back "
+                       "with the step res[j] = rule.apply(res[j].clone())? and no early exit, i.e. projected on one word the same rule sequence as the runner; a Change "
+                       "is built only when the whole phrase differs from the snapshot taken before the group, with rule_index = the group loop's enumerate index and "
+                       "after = the phrase after the group; parsed groups correspond one-to-one and in order to the caller's list; the printer indexes rules by "
+                       "change.rule_index and renders change.after with the very list that was parsed.",
+        "does_not_decide": "equality of error values when different words fail at different groups (word-major vs group-major order).",
+        "assumptions": ["C11's independence of words (PUR rules) for the projection argument"],
+    },
     "C19": {
         "rules": [("CLI-1", cli.cli1), ("CLI-4", cli.cli4), ("TAB-7", cli.tab7)],
         "explanation": "Decides the wiring and file-format clauses of C19: no call (lib, bin) passes same-typed arguments crosswise to each other's parameters "
